@@ -1,6 +1,9 @@
 use crate::*;
 use rssl_text::Located;
+#[cfg(not(trark_rssl_verif))]
 use std::collections::HashMap;
+#[cfg(trark_rssl_verif)]
+use rssl_text::verif_collections::HashMap;
 
 /// Replace cbuffers with global objects
 pub fn simplify_cbuffers(module: &mut Module) {
